@@ -364,3 +364,61 @@ for _af in (False, True):
     REG.add(expected_rates_case(_af))
     for _hc in (False, True):
         REG.add(event_counts_case(_af, _hc))
+
+
+# ---------------------------------------------------------------------------------------------------
+# The induction behind the PASS invariant, as obligations: from the state "k catalogs of the pass have been yielded" the REAL
+# __next__ (inlined) yields catalog k and establishes the state for k + 1; at k == J it raises StopIteration and leaves the
+# state PassInv.at_exit describes.  With the base case (a pass starts at cursor 0: an obligation of PassInv.inv at every
+# loop) this is the standard invariant argument for `for catalog in forecast`.
+# ---------------------------------------------------------------------------------------------------
+def pass_induction_case(apply_filters):
+    class PI:
+        qualname = 'lemma:C13:pass induction, list-backed forecast, apply_filters=%s' % apply_filters
+        case = 'inductive step k -> k+1 and exit at k == J on the real __next__'
+        properties = ('C13', 'C10')
+
+        def lemma(c):
+            J, k, nE = c.int('J'), c.int('k'), c.int('n_counts')
+            c.ctx.assume(z3.And(J >= 0, 0 <= k, k <= J, nE >= 0))
+            key = (lambda j: FILT(SRC(to_z3(j)))) if apply_filters else (lambda j: SRC(to_z3(j)))
+            Ef = c.ctx.fresh_fun('counts0', z3.IntSort(), z3.IntSort())
+            j = z3.Int('j!pi')
+            # invariant at k: cursor k; if k > 0, one count per catalog yielded so far, each the event count of its catalog
+            c.ctx.assume(z3.Implies(k > 0, nE == k))
+            c.ctx.assume(z3.ForAll([j], z3.Implies(z3.And(0 <= j, j < k), Ef(j) == EC(key(j))), patterns=[Ef(j)]))
+            o = c.obj(CF, _idx=k, n_cat=J, _event_counts=SymList(nE, lambda i: Ef(to_z3(i)), '_event_counts'), apply_filters=apply_filters,
+                      filters=['magnitude >= 4.0'], apply_mct=False, filter_spatial=False, store=True, region=None, name='fc', event=None,
+                      catalog_format='native', filename='f.csv', catalogs=catalog_list(J))
+            try:
+                r = c.inline(CF + '.__next__', o)
+                out = ('return', r)
+            except PyRaise as e:
+                out = ('raise', e.cls.name)
+            cnt = o.fields['_event_counts']
+            s = c.ctx.fresh_int('j!sk')
+            if out[0] == 'return':
+                r = out[1]
+                yield 'a catalog is yielded only before the end of the pass', k < J
+                yield 'it is catalog k of the pass (filters applied iff configured)', z3.And(
+                    z3.BoolVal(isinstance(r, Opaque) and r.name == 'catalog'), r.key == key(k) if isinstance(r, Opaque) else False)
+                yield 'the cursor is k + 1', to_z3(o.fields['_idx']) == k + 1
+                yield 'one count per catalog yielded so far', seq_len(cnt) == k + 1
+                yield 'count j is the event count of catalog j of this pass, for every j <= k', z3.Implies(
+                    z3.And(0 <= s, s <= k), to_z3(seq_get(cnt, s)) == EC(key(s)))
+            else:
+                yield 'the only exception is StopIteration', z3.BoolVal(out[1] == 'StopIteration')
+                yield 'exactly at the end of the pass', k == J
+                yield 'the cursor is reset for the next pass', to_z3(o.fields['_idx']) == 0
+                yield 'the number of catalogs is unchanged', to_z3(o.fields['n_cat']) == J
+                yield 'the filter switch is left as configured', z3.BoolVal(o.fields.get('apply_filters') is apply_filters)
+                yield 'the counts left behind are those of this pass: one per catalog', seq_len(cnt) == J
+                yield 'count j is the event count of catalog j of this pass', z3.Implies(
+                    z3.And(0 <= s, s < J), to_z3(seq_get(cnt, s)) == EC(key(s)) if not (isinstance(cnt, list) and not cnt) else z3.BoolVal(False))
+            yield 'the catalogs held by the forecast are untouched', z3.BoolVal(isinstance(o.fields.get('catalogs'), SymList))
+    PI.__name__ = 'PassInduction_%s' % apply_filters
+    return PI
+
+
+for _af in (False, True):
+    REG.add(pass_induction_case(_af))
